@@ -9,7 +9,7 @@ CHECKS = {
  "C10": dict(
   level="model_checking",
   technique="explicit-state BFS over the Parser-contract automaton; every transition replayed on the real store.CreateInMemory; invariant checked in every state",
-  text="All legal Parser event sequences up to depth 6 (quick) / 8 (thorough) over a 13-event alphabet are enumerated breadth-first (surplus end events included: every event is also replayed directly after one); each one is replayed into a fresh real in-memory store and the whole Cursor contract (structure = model, Pos unique/ordered, parent links, per-element namespace ownership, call depth bounded by open elements at every Pull) is checked on the resulting tree. Large flat/sibling/nested streams (up to 3*10^6 events) run in a subprocess under a 64 MB stack limit.",
+  text="All legal Parser event sequences up to depth 6 (quick) / 8 (thorough) over a 14-event alphabet are enumerated breadth-first (surplus end events included: every event is also replayed directly after one); each one is replayed into a fresh real in-memory store and the whole Cursor contract (structure = model, Pos unique/ordered, parent links, per-element namespace ownership, call depth bounded by open elements at every Pull) is checked on the resulting tree. Large flat/sibling/nested streams (up to 3*10^6 events) run in a subprocess under a 64 MB stack limit.",
   note="Trusted: the 60-line reference builder impl.FromEvents (inheritance of namespace bindings by prefix). Event values outside the alphabet, duplicate prefixes/attribute names on one element and sequences longer than the bound are not covered.",
   ref="2 C10"),
 }
